@@ -26,6 +26,9 @@ import CookModel.Lemmas.CollectorLast
 import CookModel.Lemmas.RoundtripRefsX
 import CookModel.Lemmas.RoundtripDocRefs
 import CookModel.Lemmas.RoundtripModes
+import CookModel.Lemmas.RoundtripModes2
+import CookModel.Lemmas.RoundtripModes3
+import CookModel.Lemmas.RoundtripDocModes
 /-
   C01  Printing a recipe as Cooklang and parsing it returns that recipe.
 
@@ -1718,5 +1721,488 @@ example : (parseEvents C01_modesEnv [] (C01_exModeBlocks.flatMap MBlock.events))
 example : (parseEvents (α := Rat) C01_modesEnv [] (compsEvents (C01_txt "[mode]" 3) (C01_txt "components" 11)
       [[.text (C01_txt "Add " 20)]] (C01_txt "[mode]" 40) (C01_txt "all" 48))).diags.toList.map (·.kind) =
     ["text-in-components-mode"] := by rfl
+
+/-! ### every mode switch, through the analysis pass and end to end (wave 4) -/
+
+/-- **`>> [mode]: v` / `>> [define]: v` in closed form.**  Under MODES a `>>` line whose trimmed key is `[mode]` or
+    `[define]` and whose outer-trimmed value is `all`/`default`, `components`/`ingredients`, `steps` or `text`
+    (`defineModeOf` = the accepted spellings of the code) sets the define mode to the selected one and does
+    NOTHING else: no map entry, no deprecation label, no diagnostic. -/
+theorem C01_define_mode_line {α : Type} [Arith α] (env : Env) (input : Str) (k v : Text) (s : Col α) (m : DefineMode)
+    (h : DefineLine env k v m) : (processEvent env input (.metadata k v) s).2 = { s with defineMode := m } :=
+  rtn_defineLine env k v s m h
+
+/-- **`>> [duplicate]: v` in closed form**: `new`/`default` or `reference`/`ref` (`duplicateModeOf`) sets the
+    duplicate mode and does nothing else. -/
+theorem C01_duplicate_mode_line {α : Type} [Arith α] (env : Env) (input : Str) (k v : Text) (s : Col α)
+    (m : DuplicateMode) (h : DuplicateLine env k v m) :
+    (processEvent env input (.metadata k v) s).2 = { s with duplicateMode := m } :=
+  rtn_duplicateLine env k v s m h
+
+example : DefineLine C01_modesEnv (C01_txt "[define]" 3) (C01_txt "text" 13) .text ∧
+    DefineLine C01_modesEnv (C01_txt "[mode]" 3) (C01_txt "steps" 11) .steps ∧
+    DefineLine C01_modesEnv (C01_txt "[mode]" 3) (C01_txt "ingredients" 11) .components ∧
+    DuplicateLine C01_modesEnv (C01_txt "[duplicate]" 3) (C01_txt "ref" 16) .reference :=
+  ⟨⟨by decide, by decide, by decide⟩, ⟨by decide, by decide, by decide⟩, ⟨by decide, by decide, by decide⟩,
+   ⟨by decide, by decide, by decide⟩⟩
+/-- the accepted values, exhaustively: anything else selects nothing (the code reports `config-invalid-value`) -/
+example : defineModeOf "all".toList = some .all ∧ defineModeOf "default".toList = some .all ∧
+    defineModeOf "components".toList = some .components ∧ defineModeOf "ingredients".toList = some .components ∧
+    defineModeOf "steps".toList = some .steps ∧ defineModeOf "text".toList = some .text ∧
+    defineModeOf "step".toList = none ∧ duplicateModeOf "new".toList = some .new ∧
+    duplicateModeOf "default".toList = some .new ∧ duplicateModeOf "reference".toList = some .reference ∧
+    duplicateModeOf "ref".toList = some .reference ∧ duplicateModeOf "all".toList = none := by decide
+
+/-- **A block in text mode becomes a text paragraph copied from the source.**  The collector is in define mode
+    `text`; the events are `Start kind`, the items of the block, `End kind` — for ANY block kind, in particular a
+    step block.  Each item contributes a piece (`textModePiece`): a text its shown text, a component (ingredient,
+    cookware, timer) the characters of the source between the ends of its span (`pieces` says the slices exist).
+    Then the current section gets ONE `Content::Text` holding the pieces joined — nothing when that is empty —,
+    one warning `component-in-text-mode:<kind>` per component, placed on it, is appended to the diagnostics, and
+    nothing else changes: the components do NOT enter the tables, there is no step, the step counter stays. -/
+theorem C01_text_mode_block {α : Type} [Arith α] (env : Env) (input : Str) (rest : List (Ev α)) (kind : BlockKind)
+    (st : List (SItem α)) (pieces : List Str) (s : Col α) (hd : s.defineMode = .text)
+    (hp : st.map (textModePiece input) = pieces.map some) :
+    parseEventsLoop env input ([Ev.start kind] ++ st.map SItem.ev ++ [Ev.stop kind] ++ rest) s =
+      parseEventsLoop env input rest
+        { s with cur := ⟨s.cur.name, s.cur.content ++ xParaContent pieces.flatten⟩, block := none,
+                 diags := s.diags ++ (st.flatMap textModeWarn).toArray } :=
+  rtn_text_block env input rest kind st pieces s hd hp
+
+/-- example: in text mode the step `A @s` (the source is `A @s`, the ingredient is written at bytes 2–4): the
+    paragraph is the source text, the ingredient is reported as ignored and is not in the table -/
+def C01_exS : Loc (PIngredient Rat) := ⟨⟨⟨⟨0⟩, ⟨3, 3⟩⟩, none, C01_txt "s" 3, none, none, none⟩, ⟨2, 4⟩⟩
+example : (parseEvents (α := Rat) C01_modesEnv "A @s".toList
+      ([.metadata (C01_txt "[mode]" 3) (C01_txt "text" 11), .start .step, .text (C01_txt "A " 0),
+        .ingredient C01_exS, .stop .step])).output.map
+      (fun c => (c.sections, c.ingredients.size, c.diags.toList.map (fun d => (d.kind, d.labels)))) =
+    some ([⟨none, [.text "A @s".toList]⟩], 0, [("component-in-text-mode:ingredient", [⟨2, 4⟩])]) := by rfl
+example : [SItem.text (C01_txt "A " 0), SItem.ingredient C01_exS].map (textModePiece "A @s".toList) =
+    ["A ".toList, "@s".toList].map some := by decide
+
+/-- **The exact rule of the modes for a component without intermediate data** (`resolve_reference`).  Given the
+    define mode, the duplicate mode, the written modifiers, whether the name has an earlier non-REF definition
+    (`found`) and whether the checks of a reference against that definition are quiet (`target`), `modeRuleB`
+    holds exactly in these two situations, in which the code reports nothing:
+    * the component STAYS A DEFINITION: no `&`, and either `+` is written where the mode would otherwise have
+      made it a reference (steps mode; duplicate mode `reference` with the name found), or `+` is not written,
+      the define mode is not `steps`, and the duplicate mode is `new` or the name is not found;
+    * the component BECOMES A REFERENCE: no `+`, the target is fine, and `&` is written (then the modes must be
+      the default ones: elsewhere `&` is redundant) or the define mode is `steps` or the duplicate mode is
+      `reference` (an implicit reference). -/
+theorem C01_mode_rule (dm : DefineMode) (dup : DuplicateMode) (mods : Modifiers) (found target : Bool)
+    (h : modeRuleB dm dup mods found target = true) :
+    (mods.contains Modifiers.REF = false ∧
+      ((mods.contains Modifiers.NEW = true ∧ (dm = .steps ∨ (dup = .reference ∧ found = true))) ∨
+       (mods.contains Modifiers.NEW = false ∧ dm ≠ .steps ∧ (dup = .new ∨ found = false)))) ∨
+    (mods.contains Modifiers.NEW = false ∧ target = true ∧
+      (mods.contains Modifiers.REF = true ∨ dm = .steps ∨ dup = .reference) ∧
+      (mods.contains Modifiers.REF = true → dm ≠ .steps ∧ dup = .new)) :=
+  rtq_modeRule dm dup mods found target h
+
+example : modeRuleB .steps .new ⟨0⟩ true true = true ∧ modeRuleB .steps .new ⟨0⟩ false false = false ∧
+    modeRuleB .all .reference ⟨0⟩ true true = true ∧ modeRuleB .all .reference ⟨0⟩ false false = true ∧
+    modeRuleB .all .reference ⟨Modifiers.NEW⟩ true false = true ∧
+    modeRuleB .all .reference ⟨Modifiers.NEW⟩ false false = false ∧
+    modeRuleB .all .reference ⟨Modifiers.REF⟩ true true = false ∧ modeRuleB .all .new ⟨Modifiers.REF⟩ true true = true := by
+  decide
+
+/-- **An ingredient that becomes a reference, in every mode** (generalises `C01_reference_event_partial`, which
+    has the default modes and `&`).  Inside a step block; no intermediate data; no scaling-lock warning; no `+`;
+    `&` is written, or the define mode is `steps`, or the duplicate mode is `reference` — and a written `&` is not
+    redundant; the name has an earlier non-REF definition, the last one at `t`, which is a definition with every
+    modifier of the component (HIDDEN, OPT, RECIPE are inherited); the checks of a reference are quiet
+    (`RefChecksQuiet`).  Then the event appends the reference `asReference …` (relation `reference t`, the written
+    and inherited modifiers and REF), makes the definition list the new index back, appends the step item, and
+    reports NOTHING.  In steps mode and in duplicate mode `reference` this is the IMPLICIT reference of a
+    component written as a plain `@name`. -/
+theorem C01_reference_event_any_mode {α : Type} [Arith α] (env : Env) (input : Str) (li : Loc (PIngredient α))
+    (s : Col α) (items : List Item) (t : Nat) (defn : Ingredient (ScalableValue α)) (defLoc : Loc (PIngredient α))
+    (rf : List Nat) (b : Bool) (tg : Option RefTarget) (hb : s.block = some (.step items))
+    (hinter : li.val.inter = none) (hlock : ∀ q, li.val.quantity = some q → lockOK q.val.value true)
+    (hNEW : li.val.modifiers.val.contains Modifiers.NEW = false)
+    (htreat : li.val.modifiers.val.contains Modifiers.REF = true ∨ s.defineMode = .steps ∨
+      s.duplicateMode = .reference)
+    (hquiet : li.val.modifiers.val.contains Modifiers.REF = true → s.defineMode ≠ .steps ∧ s.duplicateMode = .new)
+    (hfound : sameNameIdx env (s.ingredients.toList.map (fun x => (x.name, x.modifiers))) (ingrOf env li).name = some t)
+    (hdefn : s.ingredients[t]? = some defn) (hloc : s.locIngr[t]? = some defLoc)
+    (hrel : defn.relation = ⟨.definition rf b, tg⟩)
+    (hconf : refConflict li.val.modifiers.val
+      ⟨defn.modifiers.bits &&& (Modifiers.HIDDEN ||| Modifiers.OPT ||| Modifiers.RECIPE)⟩ = 0)
+    (hq : RefChecksQuiet env li (ingrOf env li).quantity defn b) :
+    (processEvent env input (.ingredient li) s).2 =
+      { s with
+        locIngr := s.locIngr.push li,
+        ingredients := (s.ingredients.setIfInBounds t (backlinked defn rf s.ingredients.size b tg)).push
+          (asReference (ingrOf env li) defn.modifiers t),
+        block := some (.step (items ++ [.ingredient s.ingredients.size])) } :=
+  rtn_proc_ingredient_ref env input li s items t defn defLoc rf b tg hb hinter hlock hNEW htreat hquiet hfound hdefn
+    hloc hrel hconf hq
+
+/-- the same for a cookware item (`#name` in steps mode / duplicate mode `reference`, `#&name` in the default modes) -/
+theorem C01_cookware_reference_event_any_mode {α : Type} [Arith α] (env : Env) (input : Str) (lc : Loc (PCookware α))
+    (s : Col α) (items : List Item) (t : Nat) (defn : Cookware (ScalableValue α)) (defLoc : Loc (PCookware α))
+    (rf : List Nat) (b : Bool) (hb : s.block = some (.step items))
+    (hlock : ∀ q, lc.val.quantity = some q → lockOK q.val false)
+    (hNEW : lc.val.modifiers.val.contains Modifiers.NEW = false)
+    (htreat : lc.val.modifiers.val.contains Modifiers.REF = true ∨ s.defineMode = .steps ∨
+      s.duplicateMode = .reference)
+    (hquiet : lc.val.modifiers.val.contains Modifiers.REF = true → s.defineMode ≠ .steps ∧ s.duplicateMode = .new)
+    (hfound : sameNameIdx env (s.cookware.toList.map (fun x => (x.name, x.modifiers))) (cwOf env lc).name = some t)
+    (hdefn : s.cookware[t]? = some defn) (hloc : s.locCw[t]? = some defLoc)
+    (hrel : defn.relation = .definition rf b)
+    (hconf : refConflict lc.val.modifiers.val ⟨defn.modifiers.bits &&& (Modifiers.HIDDEN ||| Modifiers.OPT)⟩ = 0)
+    (hq : CwRefChecksQuiet lc (cwOf env lc).quantity defn b) :
+    (processEvent env input (.cookware lc) s).2 =
+      { s with
+        locCw := s.locCw.push lc,
+        cookware := (s.cookware.setIfInBounds t (cwBacklinked defn rf s.cookware.size b)).push
+          (cwAsReference (cwOf env lc) defn.modifiers t),
+        block := some (.step (items ++ [.cookware s.cookware.size])) } :=
+  rtn_proc_cookware_ref env input lc s items t defn defLoc rf b hb hlock hNEW htreat hquiet hfound hdefn hloc hrel hconf hq
+
+/-- **An ingredient that stays a definition, in every mode but components**: no `&`; `+` exactly where the mode
+    would have made it a reference (first alternative), or no `+` where the mode leaves it alone (second).  It is
+    appended as written — `+` stays among its modifiers —, `defined_in_step`, nothing is reported.  In duplicate
+    mode `reference` this is the FIRST occurrence of a name, or a later one written `@+name`. -/
+theorem C01_definition_event_any_mode {α : Type} [Arith α] (env : Env) (input : Str) (li : Loc (PIngredient α))
+    (s : Col α) (items : List Item) (hb : s.block = some (.step items)) (hne : s.defineMode ≠ .components)
+    (hinter : li.val.inter = none) (hlock : ∀ q, li.val.quantity = some q → lockOK q.val.value true)
+    (hREF : li.val.modifiers.val.contains Modifiers.REF = false)
+    (hq : (li.val.modifiers.val.contains Modifiers.NEW = true ∧
+            (s.defineMode = .steps ∨ (s.duplicateMode = .reference ∧
+              (sameNameIdx env (s.ingredients.toList.map (fun x => (x.name, x.modifiers))) (ingrOf env li).name).isSome
+                = true))) ∨
+          (li.val.modifiers.val.contains Modifiers.NEW = false ∧ s.defineMode ≠ .steps ∧
+            (s.duplicateMode = .new ∨
+              sameNameIdx env (s.ingredients.toList.map (fun x => (x.name, x.modifiers))) (ingrOf env li).name = none))) :
+    (processEvent env input (.ingredient li) s).2 =
+      { s with locIngr := s.locIngr.push li, ingredients := s.ingredients.push (ingrOf env li),
+               block := some (.step (items ++ [.ingredient s.ingredients.size])) } :=
+  rtn_proc_ingredient_def env input li s items hb hne hinter hlock hREF hq
+
+/-- **Duplicate mode `reference`: the table of a document that repeats a name.**  Whatever the define mode
+    (`all` or `steps`), a component without `+` whose name has an earlier non-REF definition — the last one at
+    `t`, a definition — is stored as the reference `asReference …` to `t`, and the definition at `t` lists the new
+    index back (`backlinked`); in duplicate mode `reference` no `&` is needed for that. -/
+theorem C01_duplicate_reference_table {α : Type} [Arith α] (env : Env) (dm : DefineMode) (content : List Content)
+    (nsec : Nat) (tbl : Array (Ingredient (ScalableValue α))) (igr0 : Ingredient (ScalableValue α)) (t : Nat)
+    (defn : Ingredient (ScalableValue α)) (rf : List Nat) (b : Bool) (tg : Option RefTarget)
+    (hN : igr0.modifiers.contains Modifiers.NEW = false)
+    (hfound : sameNameIdx env (tbl.toList.map (fun x => (x.name, x.modifiers))) igr0.name = some t)
+    (hdefn : tbl[t]? = some defn) (hrel : defn.relation = ⟨.definition rf b, tg⟩) :
+    ingrPushM env dm .reference content nsec tbl none igr0 =
+      (tbl.setIfInBounds t (backlinked defn rf tbl.size b tg)).push (asReference igr0 defn.modifiers t) :=
+  rtq_ingrPushM_reference env dm .reference content nsec tbl igr0 t defn rf b tg hN (Or.inr (Or.inr rfl)) hfound hdefn hrel
+
+/-- … the first occurrence of a name is appended as written, and so is every component written with `+` -/
+theorem C01_duplicate_reference_first {α : Type} [Arith α] (env : Env) (dm : DefineMode) (dup : DuplicateMode)
+    (content : List Content) (nsec : Nat) (tbl : Array (Ingredient (ScalableValue α)))
+    (igr0 : Ingredient (ScalableValue α))
+    (h : igr0.modifiers.contains Modifiers.NEW = true ∨
+      sameNameIdx env (tbl.toList.map (fun x => (x.name, x.modifiers))) igr0.name = none) :
+    ingrPushM env dm dup content nsec tbl none igr0 = tbl.push igr0 := by
+  rcases h with h | h
+  · exact rtq_ingrPushM_new env dm dup content nsec tbl igr0 h
+  · exact rtq_ingrPushM_first env dm dup content nsec tbl igr0 h
+
+/-- in the default modes `ingrPushM` is the rule of `C01_analysis_doc_all_refs`: without `&` appended as written -/
+theorem C01_default_modes_table {α : Type} [Arith α] (env : Env) (content : List Content) (nsec : Nat)
+    (tbl : Array (Ingredient (ScalableValue α))) (igr0 : Ingredient (ScalableValue α))
+    (hR : igr0.modifiers.contains Modifiers.REF = false) :
+    ingrPushM env .all .new content nsec tbl none igr0 = tbl.push igr0 :=
+  rtq_ingrPushM_default env content nsec tbl igr0 hR
+
+/-- **Analysis layer for documents with ARBITRARY mode switches** (extends `C01_analysis_components_mode`).
+    `blocks` is what the parser hands over: plain blocks (steps, section lines, `>>` entries, text paragraphs) and
+    `>>` lines that are switches of the define mode or of the duplicate mode, anywhere between the blocks.  The
+    table-independent side conditions are threaded with the define mode (`nSideOK`: every switch line is one the
+    code accepts, `DefineLine` / `DuplicateLine`; every other `>>` line is a plain entry; no scaling-lock warning;
+    a timer ADVANCED_UNITS accepts; a text free of inline quantities only where it becomes a step item).  The
+    conditions on components are threaded with both modes and the tables (`yOKB`, a computable check over the
+    described blocks `NBlock.y`):
+    * define mode `all` / `steps`: the step is not empty and every component obeys `modeRuleB` (`C01_mode_rule`)
+      — an intermediate reference as in `C01_analysis_doc_all_refs`, the modes play no part for it;
+    * components mode: duplicate mode `new`, plain definitions, texts without letter or digit;
+    * text mode: texts only (a component would be reported, `C01_text_mode_block`).
+    Then `parse_events` returns the recipe `yRun …`, a PURE function of the described blocks:
+    * a step in mode `all` / `steps` is pushed and numbered; its components enter the tables by `ingrPushM` /
+      `cwPushM`: in steps mode every component without `+` is a reference to the last earlier definition of its
+      name; in duplicate mode `reference` a repeated name is (`C01_duplicate_reference_table`);
+    * a step in components mode only extends the tables, `defined_in_step = false`; no step, no number;
+    * a step in text mode becomes an unnumbered text paragraph of its shown texts;
+    * section lines, entries, text paragraphs as before, in every mode;
+    * the switches are not metadata: not in the map, not counted by the deprecation notice (`nEntries`);
+    * no other diagnostic, no panic. -/
+theorem C01_analysis_modes {α : Type} [Arith α] (env : Env) (input : Str) (blocks : List (NBlock α))
+    (hside : nSideOK env .all blocks)
+    (hok : yOKB env .all .new {} [] ⟨none, []⟩ 1 (blocks.map (NBlock.y env)) = true) :
+    ∃ c : Col α, parseEvents env input (blocks.flatMap NBlock.events) = ⟨some c, c.diags, none⟩ ∧
+      c.sections = (yRun env .all .new {} [] ⟨none, []⟩ 1 [] (blocks.map (NBlock.y env))).secs ∧
+      c.ingredients = (yRun env .all .new {} [] ⟨none, []⟩ 1 [] (blocks.map (NBlock.y env))).T.ing ∧
+      c.cookware = (yRun env .all .new {} [] ⟨none, []⟩ 1 [] (blocks.map (NBlock.y env))).T.cw ∧
+      c.timers = (yRun env .all .new {} [] ⟨none, []⟩ 1 [] (blocks.map (NBlock.y env))).T.tm ∧
+      c.metaMap = (yRun env .all .new {} [] ⟨none, []⟩ 1 [] (blocks.map (NBlock.y env))).metaMap ∧
+      c.diags = deprecation (docSpans (nEntries blocks)) ∧
+      c.inlineQ = #[] ∧ c.frontMatter = none :=
+  rtq_parseEvents_doc env input blocks hside hok
+
+/-- what a step block is in each define mode, in `yRun` (the four closed forms) -/
+theorem C01_step_by_mode {α : Type} [Arith α] (env : Env) (dup : DuplicateMode) (T : XTbls α) (secs : List Section)
+    (cur : Section) (num : Nat) (m : List (Str × Str)) (st : List (XItem α)) (r : List (YBlock α)) :
+    yRun env .text dup T secs cur num m (.step st :: r) =
+      yRun env .text dup T secs ⟨cur.name, cur.content ++ xParaContent (xTexts st)⟩ num m r ∧
+    yRun env .components dup T secs cur num m (.step st :: r) = yRun env .components dup (xCTbls T st) secs cur num m r ∧
+    yRun env .steps dup T secs cur num m (.step st :: r) =
+      yRun env .steps dup (yStepTbls env .steps dup cur.content secs.length T st) secs
+        ⟨cur.name, cur.content ++ [.step ⟨yItems env .steps dup cur.content secs.length T st, num⟩]⟩ (num + 1) m r ∧
+    yRun env .all dup T secs cur num m (.step st :: r) =
+      yRun env .all dup (yStepTbls env .all dup cur.content secs.length T st) secs
+        ⟨cur.name, cur.content ++ [.step ⟨yItems env .all dup cur.content secs.length T st, num⟩]⟩ (num + 1) m r :=
+  ⟨rfl, rfl, rfl, rfl⟩
+
+/-! example (analysis layer): `>> [duplicate]: ref`, the step `@salt{=1%tsp}`, the step `Add @salt` (no `&`),
+    `>> [mode]: steps`, the step `@salt` again: one definition that lists both later occurrences back, two implicit
+    references; three numbered steps; no diagnostic at all. -/
+def C01_exSalt2 : Loc (PIngredient Rat) := ⟨⟨⟨⟨0⟩, ⟨65, 65⟩⟩, none, C01_txt "salt" 65, none, none, none⟩, ⟨64, 69⟩⟩
+def C01_exSalt3 : Loc (PIngredient Rat) := ⟨⟨⟨⟨0⟩, ⟨91, 91⟩⟩, none, C01_txt "salt" 91, none, none, none⟩, ⟨90, 95⟩⟩
+def C01_exDupBlocks : List (NBlock Rat) :=
+  [.duplicate (C01_txt "[duplicate]" 3) (C01_txt "ref" 16) .reference,
+   .plain (.step [.ingredient C01_exSalt1]),
+   .plain (.step [.text (C01_txt "Add " 60), .ingredient C01_exSalt2]),
+   .define (C01_txt "[mode]" 73) (C01_txt "steps" 81) .steps,
+   .plain (.step [.ingredient C01_exSalt3])]
+example : nSideOK C01_modesEnv .all C01_exDupBlocks := by
+  refine ⟨⟨by decide, by decide, by decide⟩, ?_, ?_, ⟨by decide, by decide, by decide⟩, ?_, trivial⟩
+  · intro it hit
+    simp only [List.mem_cons, List.not_mem_nil, or_false] at hit
+    subst hit
+    intro q hq; cases hq; intro _; exact ⟨rfl, rfl⟩
+  · intro it hit
+    simp only [List.mem_cons, List.not_mem_nil, or_false] at hit
+    rcases hit with rfl | rfl
+    · intro _ h; exact absurd h (by decide)
+    · intro q hq; cases hq
+  · intro it hit
+    simp only [List.mem_cons, List.not_mem_nil, or_false] at hit
+    subst hit
+    intro q hq; cases hq
+example : yOKB C01_modesEnv .all .new {} [] ⟨none, []⟩ 1 (C01_exDupBlocks.map (NBlock.y C01_modesEnv)) = true := by decide
+example : (yRun C01_modesEnv .all .new {} [] ⟨none, []⟩ 1 [] (C01_exDupBlocks.map (NBlock.y C01_modesEnv))).secs =
+    [⟨none, [.step ⟨[.ingredient 0], 1⟩, .step ⟨[.text "Add ".toList, .ingredient 1], 2⟩, .step ⟨[.ingredient 2], 3⟩]⟩] := by
+  decide
+example : (yRun C01_modesEnv .all .new {} [] ⟨none, []⟩ 1 [] (C01_exDupBlocks.map (NBlock.y C01_modesEnv))).T.ing.toList.map
+      (fun i => (i.name, i.relation, i.modifiers)) =
+    [("salt".toList, ⟨.definition [1, 2] true, none⟩, ⟨0⟩),
+     ("salt".toList, ⟨.reference 0, some .ingredient⟩, ⟨Modifiers.REF⟩),
+     ("salt".toList, ⟨.reference 0, some .ingredient⟩, ⟨Modifiers.REF⟩)] := by decide
+example : (parseEvents C01_modesEnv [] (C01_exDupBlocks.flatMap NBlock.events)).output.map
+      (fun c => (c.ingredients.toList.map (·.relation), c.diags.toList)) =
+    some ([⟨.definition [1, 2] true, none⟩, ⟨.reference 0, some .ingredient⟩, ⟨.reference 0, some .ingredient⟩], []) := by
+  rfl
+/-- the conditions are needed: in steps mode a name that was not defined before is an error; in duplicate mode
+    `reference` a written `&` is reported as redundant -/
+example : yOKB (α := Rat) C01_modesEnv .steps .new {} [] ⟨none, []⟩ 1 [.step [.ingr none (ingrOf C01_modesEnv C01_exSalt2)]] =
+    false := by decide
+example : (parseEvents C01_modesEnv [] ([.metadata (C01_txt "[mode]" 3) (C01_txt "steps" 11)] ++
+      stepEvents [.ingredient C01_exSalt2])).diags.toList.map (·.kind) = ["reference-not-found"] := by rfl
+example : (parseEvents C01_modesEnv [] ([.metadata (C01_txt "[duplicate]" 3) (C01_txt "ref" 16)] ++
+      stepEvents [.ingredient C01_exSalt1] ++ stepEvents [.ingredient C01_exSaltRef])).diags.toList.map (·.kind) =
+    ["redundant-ref"] := by rfl
+
+
+/-! examples: the hypotheses of `C01_reference_event_any_mode`, `C01_definition_event_any_mode`, `C01_duplicate_reference_table`,
+    `C01_duplicate_reference_first`, `C01_default_modes_table`, `C01_cookware_reference_event_any_mode` hold in the state after the definition
+    `@salt{=1%tsp}` with duplicate mode `reference` (and define mode `steps` for the third): the plain `@salt`
+    (`C01_exSalt2`, no `&`) is an implicit reference to entry 0; `@pepper` is a first occurrence -/
+def C01_exAfterDefDup : Col Rat := { C01_exAfterDef with duplicateMode := .reference }
+def C01_exPepper : Loc (PIngredient Rat) := ⟨⟨⟨⟨0⟩, ⟨65, 65⟩⟩, none, C01_txt "pepper" 65, none, none, none⟩, ⟨64, 71⟩⟩
+example : C01_exAfterDefDup.block = some (.step [.ingredient 0]) ∧ C01_exSalt2.val.inter = none ∧
+    C01_exSalt2.val.modifiers.val.contains Modifiers.NEW = false ∧
+    (C01_exSalt2.val.modifiers.val.contains Modifiers.REF = true ∨ C01_exAfterDefDup.defineMode = .steps ∨
+      C01_exAfterDefDup.duplicateMode = .reference) ∧
+    (C01_exSalt2.val.modifiers.val.contains Modifiers.REF = true →
+      C01_exAfterDefDup.defineMode ≠ .steps ∧ C01_exAfterDefDup.duplicateMode = .new) ∧
+    sameNameIdx C01_modesEnv (C01_exAfterDefDup.ingredients.toList.map (fun x => (x.name, x.modifiers)))
+      (ingrOf C01_modesEnv C01_exSalt2).name = some 0 ∧
+    C01_exAfterDefDup.ingredients[0]? = some (ingrOf C01_toyEnv C01_exSalt1) ∧
+    C01_exAfterDefDup.locIngr[0]? = some C01_exSalt1 ∧
+    refConflict C01_exSalt2.val.modifiers.val
+      ⟨(ingrOf C01_toyEnv C01_exSalt1).modifiers.bits &&& (Modifiers.HIDDEN ||| Modifiers.OPT ||| Modifiers.RECIPE)⟩ = 0 :=
+  ⟨rfl, rfl, by decide, Or.inr (Or.inr rfl), fun h => absurd h (by decide), by decide, rfl, rfl, by decide⟩
+example : RefChecksQuiet C01_modesEnv C01_exSalt2 (ingrOf C01_modesEnv C01_exSalt2).quantity
+    (ingrOf C01_toyEnv C01_exSalt1) true :=
+  ⟨by decide, rfl, by decide, fun rq dq h => by cases h⟩
+example : (C01_exPepper.val.modifiers.val.contains Modifiers.NEW = false ∧ C01_exAfterDefDup.defineMode ≠ .steps ∧
+    (C01_exAfterDefDup.duplicateMode = .new ∨
+      sameNameIdx C01_modesEnv (C01_exAfterDefDup.ingredients.toList.map (fun x => (x.name, x.modifiers)))
+        (ingrOf C01_modesEnv C01_exPepper).name = none)) :=
+  ⟨by decide, by decide, Or.inr (by decide)⟩
+example : ingrPushM C01_modesEnv .steps .reference [] 0 #[ingrOf C01_modesEnv C01_exSalt1] none
+      (ingrOf C01_modesEnv C01_exSalt2) =
+    #[backlinked (ingrOf C01_modesEnv C01_exSalt1) [] 1 true none,
+      asReference (ingrOf C01_modesEnv C01_exSalt2) (ingrOf C01_modesEnv C01_exSalt1).modifiers 0] :=
+  C01_duplicate_reference_table C01_modesEnv .steps [] 0 _ _ 0 _ [] true none (by decide) (by decide) rfl rfl
+example : ingrPushM C01_modesEnv .all .reference [] 0 #[ingrOf C01_modesEnv C01_exSalt1] none
+      (ingrOf C01_modesEnv C01_exPepper) = #[ingrOf C01_modesEnv C01_exSalt1, ingrOf C01_modesEnv C01_exPepper] :=
+  C01_duplicate_reference_first C01_modesEnv .all .reference [] 0 _ _ (Or.inr (by decide))
+example : ingrPushM C01_modesEnv .all .new [] 0 #[ingrOf C01_modesEnv C01_exSalt1] none (ingrOf C01_modesEnv C01_exSalt2) =
+    #[ingrOf C01_modesEnv C01_exSalt1, ingrOf C01_modesEnv C01_exSalt2] :=
+  C01_default_modes_table C01_modesEnv [] 0 _ _ (by decide)
+/-- cookware: `#pot` twice in duplicate mode `reference` -/
+def C01_exPot2 : Loc (PCookware Rat) := ⟨⟨⟨⟨0⟩, ⟨41, 41⟩⟩, C01_txt "pot" 41, none, none, none⟩, ⟨40, 44⟩⟩
+example : sameNameIdx C01_modesEnv ([cwOf C01_modesEnv C01_exPot1].map (fun x => (x.name, x.modifiers)))
+      (cwOf C01_modesEnv C01_exPot2).name = some 0 ∧
+    refConflict C01_exPot2.val.modifiers.val
+      ⟨(cwOf C01_modesEnv C01_exPot1).modifiers.bits &&& (Modifiers.HIDDEN ||| Modifiers.OPT)⟩ = 0 ∧
+    CwRefChecksQuiet C01_exPot2 (cwOf C01_modesEnv C01_exPot2).quantity (cwOf C01_modesEnv C01_exPot1) true :=
+  ⟨by decide, by decide, ⟨rfl, by decide, fun rq dq h => by cases h⟩⟩
+example : (parseEvents C01_modesEnv [] ([.metadata (C01_txt "[duplicate]" 3) (C01_txt "reference" 16)] ++
+      stepEvents [.cookware C01_exPot1, .cookware C01_exPot2])).output.map
+      (fun c => (c.cookware.toList.map (·.relation), c.diags.toList)) =
+    some ([.definition [1] true, .reference 0], []) := by rfl
+
+/-- **The round trip for documents with mode switches, from the printed characters to the recipe.**  `doc` as in
+    `C01_recipe_doc_refs` (steps, section lines, `>>` lines, text paragraphs; the same hypotheses on the syntax
+    layers), but a `>>` line may be a MODE SWITCH: under MODES a line whose key is `[mode]` / `[define]` with the
+    value `all|default`, `components|ingredients`, `steps`, `text`, or whose key is `[duplicate]` with the value
+    `new|default`, `reference|ref` (`metaLineY`; key and value as written, any spacing around them).  `DocItem.y`
+    describes the document for the analysis.  Hypotheses on the analysis side, both on the ABSTRACT document:
+    * `docSideOK` (threaded with the define mode): scaling locks as in `C01_recipe_doc_refs`; the extension
+      conditions on text runs only where a text becomes a step item; every `>>` line is an accepted switch or a
+      plain entry (so `[mode]: bogus` and `[other]: x` are excluded — the code reports them) — computable, see
+      `C01_mode_side_conditions_check`;
+    * `yOKB` (threaded with both modes and the tables): the computable conditions of `C01_analysis_modes`.
+    Then `CooklangParser::parse` returns a recipe, no panic; sections, the three tables and the `>>` map are
+    `yRun …` of the abstract document (`C01_step_by_mode`, `C01_duplicate_reference_table`); the only diagnostic is
+    the `>>` deprecation notice with one label per `>>` line that is an ENTRY (`DocItem.isEntry`: the switches are
+    not counted; with switches only there is no diagnostic at all).  Outside: a component inside a text-mode
+    block (reported by the code: `C01_text_mode_block`), ADVANCED_UNITS with references, front matter. -/
+theorem C01_recipe_doc_modes {α : Type} [Arith α] (env : Env) (pre : List Tok) (doc : List (DocItem × List Tok))
+    (hpre : blankLinesOK pre = true) (hok : ∀ d ∈ doc, d.1.ok env.cs env.ext = true)
+    (hside : docSideOK α env .all (doc.map (·.1)))
+    (hrefs : yOKB (α := α) env .all .new {} [] ⟨none, []⟩ 1 (doc.map (fun d => d.1.y env)) = true)
+    (hseps : sepsOK (doc.map (·.2)) = true) (hw : WellSpelled env.cs (pre ++ docSpec doc))
+    (hfm : parseFrontmatter env.cs (render (pre ++ docSpec doc)) = none) :
+    ∃ (c : Col α) (spans : List Span),
+      parseRecipe env (render (pre ++ docSpec doc)) = ⟨some c, c.diags, none⟩ ∧
+      c.sections = (yRun (α := α) env .all .new {} [] ⟨none, []⟩ 1 [] (doc.map (fun d => d.1.y env))).secs ∧
+      c.ingredients = (yRun (α := α) env .all .new {} [] ⟨none, []⟩ 1 [] (doc.map (fun d => d.1.y env))).T.ing ∧
+      c.cookware = (yRun (α := α) env .all .new {} [] ⟨none, []⟩ 1 [] (doc.map (fun d => d.1.y env))).T.cw ∧
+      c.timers = (yRun (α := α) env .all .new {} [] ⟨none, []⟩ 1 [] (doc.map (fun d => d.1.y env))).T.tm ∧
+      c.metaMap = (yRun (α := α) env .all .new {} [] ⟨none, []⟩ 1 [] (doc.map (fun d => d.1.y env))).metaMap ∧
+      c.diags = deprecation spans ∧
+      spans.length = ((doc.map (·.1)).filter (DocItem.isEntry α env)).length ∧
+      c.inlineQ = #[] ∧ c.frontMatter = none :=
+  rtdm_parseRecipe_doc env pre doc hpre hok hside hrefs hseps hw hfm
+
+/-- the table-independent side conditions are decidable up to the extension conditions: the computable check
+    `docSideB` (scaling locks; every `>>` line an accepted switch or a plain entry, `plainB`) together with the
+    extension conditions `SegX.extOKM` implies `docSideOK` -/
+theorem C01_mode_side_conditions_check {α : Type} [Arith α] (env : Env)
+    (hx : ∀ (dm : DefineMode) (sg : SegX), sg.extOKM α env dm) (items : List DocItem) (dm : DefineMode)
+    (h : docSideB α env dm items = true) : docSideOK α env dm items :=
+  rtdm_docSideOK_intro env hx items dm h
+
+/-- with INLINE_QUANTITIES and ADVANCED_UNITS off the extension conditions hold for every segment -/
+theorem C01_ext_conditions_vacuous {α : Type} [Arith α] (env : Env)
+    (h1 : env.ext.has Gen.EXT_INLINE_QUANTITIES = false) (h2 : env.ext.has Gen.EXT_ADVANCED_UNITS = false)
+    (dm : DefineMode) (sg : SegX) : sg.extOKM α env dm :=
+  rtdm_extOKM_off env h1 h2 dm sg
+
+/-- a plain `>>` line (`DocItem.plain`, the hypothesis of `C01_recipe_doc` / `C01_recipe_doc_refs`) is an entry
+    for `metaLineY`: documents without switch lines are the special case -/
+theorem C01_plain_line_is_entry {α : Type} [Arith α] (env : Env) (k v : List Tok) (p : MPad)
+    (hp : (DocItem.metaLine k v p).plain env) : metaLineY (α := α) env k v = .entry (leafText k) (leafText v) :=
+  rtdm_metaLineY_plain env k v p hp
+
+example : metaLineY (α := Rat) C01_modesEnv [tk .word "source".toList] [tk .word "me".toList] =
+    .entry "source".toList "me".toList :=
+  C01_plain_line_is_entry C01_modesEnv _ _ {} ⟨by decide, fun sk _ => ⟨by simp [C01_modesEnv], by
+    have hk : StdKey.ofStr (String.ofList (leafText [tk .word "source".toList])) = some .source := by decide
+    rename_i h; rw [hk] at h; cases h; decide⟩⟩
+
+/-! example, under MODES + MODIFIERS: every switch once.
+    `>> [duplicate]: ref` / `Mix @flour{200%g} in #bowl{}.` / `Add @flour{50%g} to #bowl{}.` / `>> [mode]: text` /
+    `Rest well.` / `>> [duplicate]: default` / `>> [define]: ingredients` / `@salt{}` / `>> [mode]: steps` /
+    `Season with @salt{} and @flour{}.` / `>> [mode]: all` / `>> source: me`.
+    Result: ONE section with step 1, step 2 (its `flour` and `bowl` are implicit references), the paragraph
+    `Rest well.`, step 3 (both components are references: steps mode); `salt` is in the table with
+    `defined_in_step = false`; the map has the one entry `source`; the deprecation notice has one label. -/
+def C01_allModesEnv : Env :=
+  ⟨toyCharSpec, ⟨Gen.EXT_MODES ||| Gen.EXT_COMPONENT_MODIFIERS⟩, fun _ => none, fun _ _ => .ok, fun c => [c], 0⟩
+def C01_modeKey (s : String) : List Tok := [tk .punct ['['], tk .word s.toList, tk .word [']']]
+def C01_modeLine (k v : String) : DocItem := .metaLine (C01_modeKey k) [tk .word v.toList] { a := [C01_sp], c := [C01_sp] }
+def C01_exModesDoc : List (DocItem × List Tok) :=
+  [(C01_modeLine "duplicate" "ref", [C01_nl, C01_nl]),
+   (.step [.text [tk .word "Mix".toList, C01_sp],
+           .ingredient { name := [tk .word "flour".toList], qty := some (C01_grams "200") } {},
+           .text [C01_sp, tk .word "in".toList, C01_sp],
+           .cookware { name := [tk .word "bowl".toList] } {},
+           .text [tk .dot ['.']]], [C01_nl, C01_nl]),
+   (.step [.text [tk .word "Add".toList, C01_sp],
+           .ingredient { name := [tk .word "flour".toList], qty := some (C01_grams "50") } {},
+           .text [C01_sp, tk .word "to".toList, C01_sp],
+           .cookware { name := [tk .word "bowl".toList] } {},
+           .text [tk .dot ['.']]], [C01_nl, C01_nl]),
+   (C01_modeLine "mode" "text", [C01_nl, C01_nl]),
+   (.step [.text [tk .word "Rest".toList, C01_sp, tk .word "well".toList, tk .dot ['.']]], [C01_nl, C01_nl]),
+   (C01_modeLine "duplicate" "default", [C01_nl, C01_nl]),
+   (C01_modeLine "define" "ingredients", [C01_nl, C01_nl]),
+   (.step [.ingredient { name := [tk .word "salt".toList] } {}], [C01_nl, C01_nl]),
+   (C01_modeLine "mode" "steps", [C01_nl, C01_nl]),
+   (.step [.text [tk .word "Season".toList, C01_sp, tk .word "with".toList, C01_sp],
+           .ingredient { name := [tk .word "salt".toList] } {},
+           .text [C01_sp, tk .word "and".toList, C01_sp],
+           .ingredient { name := [tk .word "flour".toList] } {},
+           .text [tk .dot ['.']]], [C01_nl, C01_nl]),
+   (C01_modeLine "mode" "all", [C01_nl, C01_nl]),
+   (.metaLine [tk .word "source".toList] [tk .word "me".toList] { a := [C01_sp], c := [C01_sp] }, [C01_nl])]
+
+set_option maxRecDepth 8000 in
+example : String.ofList (render (docSpec C01_exModesDoc)) =
+    ">> [duplicate]: ref\n\nMix @flour{200%g} in #bowl{}.\n\nAdd @flour{50%g} to #bowl{}.\n\n>> [mode]: text\n\nRest well.\n\n>> [duplicate]: default\n\n>> [define]: ingredients\n\n@salt{}\n\n>> [mode]: steps\n\nSeason with @salt{} and @flour{}.\n\n>> [mode]: all\n\n>> source: me\n" := by
+  decide
+example : (∀ d ∈ C01_exModesDoc, d.1.ok C01_allModesEnv.cs C01_allModesEnv.ext = true) ∧
+    sepsOK (C01_exModesDoc.map (·.2)) = true := by decide
+set_option maxRecDepth 8000 in
+example : WellSpelled toyCharSpec (docSpec C01_exModesDoc) := by decide
+set_option maxRecDepth 8000 in
+example : (parseFrontmatter toyCharSpec (render (docSpec C01_exModesDoc))).isNone = true := by decide
+example : docSideOK Rat C01_allModesEnv .all (C01_exModesDoc.map (·.1)) :=
+  C01_mode_side_conditions_check _ (C01_ext_conditions_vacuous _ (by decide) (by decide)) _ _ (by decide)
+example : yOKB (α := Rat) C01_allModesEnv .all .new {} [] ⟨none, []⟩ 1
+    (C01_exModesDoc.map (fun d => d.1.y C01_allModesEnv)) = true := by decide
+example : (yRun (α := Rat) C01_allModesEnv .all .new {} [] ⟨none, []⟩ 1 []
+      (C01_exModesDoc.map (fun d => d.1.y C01_allModesEnv))).secs =
+    [⟨none, [.step ⟨[.text "Mix ".toList, .ingredient 0, .text " in ".toList, .cookware 0, .text ".".toList], 1⟩,
+             .step ⟨[.text "Add ".toList, .ingredient 1, .text " to ".toList, .cookware 1, .text ".".toList], 2⟩,
+             .text "Rest well.".toList,
+             .step ⟨[.text "Season with ".toList, .ingredient 3, .text " and ".toList, .ingredient 4,
+                     .text ".".toList], 3⟩]⟩] := by decide
+example : (yRun (α := Rat) C01_allModesEnv .all .new {} [] ⟨none, []⟩ 1 []
+      (C01_exModesDoc.map (fun d => d.1.y C01_allModesEnv))).T.ing.toList.map
+      (fun i => (i.name, i.relation, i.modifiers)) =
+    [("flour".toList, ⟨.definition [1, 4] true, none⟩, ⟨0⟩),
+     ("flour".toList, ⟨.reference 0, some .ingredient⟩, ⟨Modifiers.REF⟩),
+     ("salt".toList, ⟨.definition [3] false, none⟩, ⟨0⟩),
+     ("salt".toList, ⟨.reference 2, some .ingredient⟩, ⟨Modifiers.REF⟩),
+     ("flour".toList, ⟨.reference 0, some .ingredient⟩, ⟨Modifiers.REF⟩)] := by decide
+example : (yRun (α := Rat) C01_allModesEnv .all .new {} [] ⟨none, []⟩ 1 []
+      (C01_exModesDoc.map (fun d => d.1.y C01_allModesEnv))).T.cw.toList.map (fun i => (i.name, i.relation)) =
+    [("bowl".toList, .definition [1] true), ("bowl".toList, .reference 0)] := by decide
+example : (yRun (α := Rat) C01_allModesEnv .all .new {} [] ⟨none, []⟩ 1 []
+      (C01_exModesDoc.map (fun d => d.1.y C01_allModesEnv))).metaMap = [("source".toList, "me".toList)] ∧
+    ((C01_exModesDoc.map (·.1)).filter (DocItem.isEntry Rat C01_allModesEnv)).length = 1 := by decide
+/-- the conditions are needed: an unknown value, an unknown `[…]` key fail the side check; a component in a
+    text-mode block, a `&` in duplicate mode `reference` fail the component check -/
+example : docSideB Rat C01_allModesEnv .all [C01_modeLine "mode" "bogus"] = false ∧
+    docSideB Rat C01_allModesEnv .all [C01_modeLine "other" "all"] = false := by decide
+example : yOKB (α := Rat) C01_allModesEnv .all .new {} [] ⟨none, []⟩ 1
+    [.define .text, .step [.ingr none (absIngr { name := [tk .word "salt".toList] })]] = false ∧
+    yOKB (α := Rat) C01_allModesEnv .all .new {} [] ⟨none, []⟩ 1
+    [.duplicate .reference, .step [.ingr none (absIngr { name := [tk .word "salt".toList] })],
+     .step [.ingr none (absIngr { mods := [.and], name := [tk .word "salt".toList] })]] = false := by decide
+
 
 end Cook
